@@ -1483,13 +1483,19 @@ pub fn replay(a: &Args, rec: &serde_json::Value) -> Report {
     let tag = r["tag"].as_str().unwrap_or("");
     match r["kind"].as_str().unwrap_or("") {
         "c16" => {
-            let spec: Spec = serde_json::from_value(r["spec"].clone()).expect("spec");
+            let spec: Spec = serde_json::from_value(r["spec"].clone()).unwrap_or_else(|_| Spec::new(true, vec![]));
             let sm = r["sm"].as_bool().unwrap_or(false);
             let script: Script = serde_json::from_value(r["script"].clone()).unwrap_or_default();
             let src = r["src"].as_str().map(|x| x.to_string()).unwrap_or_else(|| spec.render("T", ""));
             let src_b = src.clone();
             let base = std::thread::spawn(move || gen_with(&src_b, sm, vec![])).join().unwrap();
-            let differs = if r["process"].as_bool() == Some(true) {
+            let differs = if r["diagnostics"].as_bool() == Some(true) {
+                // `base` was the first expansion of this process: the later ones must give the same text
+                (0..3).any(|_| gen_with(&src, sm, vec![]).tokens != base.tokens) || {
+                    let s2 = src.clone();
+                    std::thread::spawn(move || gen_with(&s2, sm, vec![]).tokens).join().unwrap() != base.tokens
+                }
+            } else if r["process"].as_bool() == Some(true) {
                 // long-lived side: the whole corpus first (forward), then this definition; fresh side: a child
                 let mut srcs: Vec<String> = c16_corpus(Tier::Quick).iter().map(|(_, s)| s.render("T", "")).collect();
                 srcs.extend(c16_raw().into_iter().map(|x| x.1));
